@@ -21,7 +21,8 @@ BOUNDS = ("Baked recipe programs of 1-2 steps (quick: all 1-step programs and ev
           "Lite rounding model.")
 OUTSIDE = ("IEEE rounding; recipes whose bake is refused (C08 shows bake refuses iff the eager fold does); enzymes in the "
            "cast; programs longer than 3.")
-ASSUMPTIONS = ["instruction-text helpers are replaced by non-forking summaries (subject of C19)",
+ASSUMPTIONS = ["Recipe._rounding_noise (the library's own bound on float rounding noise, the tolerance of get_substance_used's net-decrease test) is 0 in the real-number model, where roundings at internal precision are the identity; native companion runs use the real one",
+               "instruction-text helpers are replaced by non-forking summaries (subject of C19)",
                "numpy.linalg.solve replaced by its exact contract"]
 EXPECT_OUTCOMES = ['ok']
 
@@ -59,7 +60,32 @@ def cells(tier, seed):
                 out.append({'id': f"prog/{','.join(prog)}/k{k}/q{ci}", 'fn': 'h_used', 'round': 'lite',
                             'max_paths': 400, 'cost': 2 ** len(prog), 'gens': 160,
                             'params': {'prog': list(prog), 'split': k, 'queries': [list(x) for x in combo]}})
+    # dilution of a stock with a solvent it does not contain, queried for that solvent
+    for prog in (['fromAd'], ['fromAd', 'A>B'], ['A>B', 'fromAd'], ['fromAd', 'dilA']):
+        for k in ((1,) if tier == 'quick' else range(0, len(prog) + 1)):
+            out.append({'id': f"prog/{','.join(prog)}/k{k}/qd", 'fn': 'h_used', 'round': 'lite', 'max_paths': 400,
+                        'cost': 2 ** len(prog), 'gens': 160,
+                        'params': {'prog': prog, 'split': k, 'queries': [['DMSO', 'umol'], ['water', 'mg'], ['NaCl', 'umol']]}})
+    # pinned witnesses: amounts whose floating-point sums over the wells do not cancel exactly (source and destination both
+    # among the destinations: net change 0, which the library used to report as a net decrease)
+    for pi, pin in enumerate(PINS):
+        for prog in (['A>Pr'], ['A>Psub'], ['A>Pr', 'Pc>B']):
+            out.append({'id': f"pinned/{','.join(prog)}/w{pi}", 'fn': 'h_used', 'round': 'lite', 'max_paths': 50, 'cost': 1,
+                        'gens': 160, 'params': {'prog': prog, 'split': 1, 'pin': pin,
+                                                'queries': [['water', 'umol'], ['NaCl', 'mg']]}})
     return out
+
+
+PINS = [
+    {'A.water': '790836.118', 'A.NaCl': '947.657', 'P11.water': '380.6', 'P12.water': '8374.1', 'P21.water': '4384.4',
+     'P22.water': '7646.6', 'q0': '0.221', 'q1': '0.05'},
+    {'A.water': '44180.572', 'A.NaCl': '2434.972', 'P11.water': '7994.3', 'P12.water': '4201.7', 'P21.water': '1812.8',
+     'P22.water': '5533.1', 'q0': '70.307', 'q1': '7.7'},
+    {'A.water': '677740.972', 'A.NaCl': '3753.283', 'P11.water': '4445.7', 'P12.water': '5133.4', 'P21.water': '7806.6',
+     'P22.water': '5257.3', 'q0': '39.332', 'q1': '1.1'},
+    {'A.water': '178645.705', 'A.NaCl': '5027.363', 'P11.water': '9822.6', 'P12.water': '7728.2', 'P21.water': '5442.2',
+     'P22.water': '8616.9', 'q0': '23.225', 'q1': '4.85'},
+]
 
 
 def run_recipe(h, prog, split):
@@ -155,10 +181,23 @@ def _queries(h, p, prog, split, rec, cast, objects, states, discards, sub_name, 
                 ledger = ledger + discards[i].get(s, 0)
             truth = lib.amount(s, ledger, base) / PREFIX[prefix]
             region = f"{sub_name}/{fname}/{dlabel}"
+            # (a remove from the plate after a slice fill_to discards what bake wrongly added to the wells outside the slice:
+            #  the known finding C09-bake-fill-slice then shows whatever the destinations are)
+            if any(prog[j] in ('rmP', 'rmPr') and 'fillS' in prog[:j] for j in range(a, b)):
+                region += '/rm-after-slice-fill'
             try:
                 got = rec.get_substance_used(s, timeframe=fname, unit=unit, destinations=arg)
             except ValueError as e:
-                # a net decrease must raise; anything else must not
+                # a net decrease must raise; anything else must not.  When every object the steps of the timeframe touch is
+                # a destination, nothing can leave the destinations: raising is wrong whatever the amounts (symbolically
+                # this is implied by the next obligation; natively it is not, because that one tolerates rounding noise)
+                touched = set()
+                for t in prog[a:b]:
+                    touched |= R._objects(t)
+                if touched <= set(names):
+                    h.fail('closed-system-never-raises', f"raised '{e}' although every object the steps touch is a destination",
+                           region)
+                    continue
                 h.require('raises-only-on-net-decrease', h.lt(ledger, 0, h.rs(h.ulp * 100)), region,
                           detail=f"raised '{e}' although the ledger shows no net decrease")
                 continue
